@@ -951,12 +951,16 @@ func (a *adapter) AuthUpdRecord(uid t.Uid, scheme, unique string, authLvl auth.L
 	if isDupe(err) {
 		return t.ErrDuplicate
 	}
+	if err != nil {
+		// resp is nil when the statement failed.
+		return err
+	}
 
 	if count, _ := resp.RowsAffected(); count <= 0 {
 		return t.ErrNotFound
 	}
 
-	return err
+	return nil
 }
 
 // Retrieve user's authentication record
